@@ -897,6 +897,7 @@ class View(object):
     self._gen = None
     self._kills = {}        # atom key -> set of def node ids whose re-execution renews a value
     self._nonplain = None
+    self._mut_roots = None
 
   # ------------------------------------------------------------------ bindings
   def _gens(self):
@@ -1002,6 +1003,54 @@ class View(object):
       self._nonplain[name] = out
     return self._nonplain[name]
 
+  def mut_roots(self):
+    """Locals whose object is modified in place somewhere in the function: root of a subscript /
+    attribute store (at any depth) or receiver of a mutating method call."""
+    if self._mut_roots is None:
+      from ..dataflow import MUTATING_METHODS
+      out = set(self.du.muts)
+
+      def root(e):
+        while isinstance(e, (ast.Subscript, ast.Attribute)):
+          e = e.value
+        return e.id if isinstance(e, ast.Name) else None
+
+      for n in walk_no_nested(self.node):
+        if isinstance(n, (ast.Subscript, ast.Attribute)) and isinstance(n.ctx, (ast.Store, ast.Del)):
+          r = root(n)
+          if r is not None:
+            out.add(r)
+        elif isinstance(n, ast.Call) and isinstance(n.func, ast.Attribute) and \
+            n.func.attr in MUTATING_METHODS:
+          r = root(n.func.value)
+          if r is not None:
+            out.add(r)
+      # an object modified through an alias is modified: `a = b[k]; a[x] = y` modifies b
+      def chain_root(e):
+        while True:
+          if isinstance(e, (ast.Subscript, ast.Attribute)):
+            e = e.value
+          elif isinstance(e, ast.Call) and isinstance(e.func, ast.Attribute) and \
+              e.func.attr in _ACCESSORS:
+            e = e.func.value
+          else:
+            break
+        return e.id if isinstance(e, ast.Name) else None
+
+      changed = True
+      while changed:
+        changed = False
+        for n in walk_no_nested(self.node):
+          if isinstance(n, ast.Assign) and len(n.targets) == 1 and \
+              isinstance(n.targets[0], ast.Name) and n.targets[0].id in out and \
+              not _allocates(n.value):
+            r = chain_root(n.value)
+            if r is not None and r not in out:
+              out.add(r)
+              changed = True
+      self._mut_roots = out
+    return self._mut_roots
+
   def value_at(self, name, nid):
     """(value expr, def node id) when exactly one binding of `name` reaches node nid, that
     binding is a plain assignment, and everything the value mentions still means at nid what it
@@ -1013,7 +1062,7 @@ class View(object):
     v = self._plain_value(name, d)
     if v is None:
       return None
-    if name in self.du.muts and _allocates(v):
+    if name in self.mut_roots() and _allocates(v):
       # a fresh object that is then filled in place: the name is its identity
       return None
     own = set()
@@ -1503,6 +1552,26 @@ class View(object):
     conds = self.cfg_facts(n.id, start=tm.head, mapping=tm)
     return Coll(kind, self.t(key, tm) if key is not None else None, self.t(value, tm),
                 lp.iter, self.t(lp.iter), conds, tm, init, lp)
+
+
+def canon_atom(cond_text, pol=True):
+  """Canonical (text, polarity) of a condition given as source text (no locals are expanded):
+  the same folding of not / != / `is not` / `not in` and operand ordering View.atom applies."""
+  e = ast.parse(cond_text, mode="eval").body
+  while isinstance(e, ast.UnaryOp) and isinstance(e.op, ast.Not):
+    e, pol = e.operand, not pol
+  if isinstance(e, ast.Compare) and len(e.ops) == 1:
+    op = type(e.ops[0])
+    if op in _FLIP:
+      op, pol = _FLIP[op], not pol
+    l, r = text(e.left), text(e.comparators[0])
+    if op in (ast.Eq, ast.Is) and r < l:
+      l, r = r, l
+    if op in (ast.Gt, ast.GtE):
+      op = ast.Lt if op is ast.Gt else ast.LtE
+      l, r = r, l
+    return ("%s %s %s" % (l, _OPNAME.get(op, op.__name__), r), pol)
+  return (text(e), pol)
 
 
 def eq_const(atom_text):
